@@ -102,11 +102,17 @@ ODD_URLS = [b'https://example.com/page#', b'https://example.com/caf\xc3\xa9', b'
             b'https://example.com:/x', b'https://example.com/a/../b', b'https://example.com/./', b'https://example.com/"q"', b'https://example.com/[x]', b'https://example.com/a^b`c{d}']
 
 
+_odd_counter = [0]
+
+
 def rand_exchange(rng, ver, payload=None):
     uri = rng.choice([b'https://example.com/', b'https://example.com/a/b?q=1', b'https://example.com:443/x', b'https://www.example.com/p%20q',
                       b'https://example.com/' + b'a' * rng.randrange(0, 60)])
-    if rng.random() < 0.2:      # spellings that url.Parse(..).String() does not reproduce byte for byte
-        uri = rng.choice(ODD_URLS)
+    # spellings that url.Parse(..).String() does not reproduce byte for byte: every fifth exchange takes the next one in turn (each
+    # spelling is certain to occur once 5 x 17 exchanges have been drawn; nothing is left to the random draw)
+    _odd_counter[0] += 1
+    if _odd_counter[0] % 5 == 0:
+        uri = ODD_URLS[(_odd_counter[0] // 5) % len(ODD_URLS)]
     method = b'GET'
     rq = rand_headers(rng) if ver != 'b3' else []
     rs = rand_headers(rng)
